@@ -1,4 +1,4 @@
-from harness import hist
+from harness import conc, hist
 
 META = {
     'property_id': 'C09', 'lean_module': 'Placement.Props.C09', 'category': 'proof',
@@ -17,11 +17,20 @@ PROFILE = {'weights': {'rp_create': 30, 'rp_update': 40, 'rp_delete': 14, 'inv_s
                        'alloc_delete': 1, 'reshape': 0},
            'n_rps': 8, 'footprint': ['rps']}
 
+RACES = {'n_rps': 7, 'setup_ops': 18, 'picker': 'tree', 'model': False,
+         'scenarios': ['create-vs-move', 'create-vs-unparent', 'create-vs-delete', 'move-vs-move', 'move-vs-delete'],
+         'setup_weights': {'rp_create': 40, 'rp_update': 10, 'rp_delete': 1, 'alloc_put': 4, 'inv_set': 6, 'rc_rename': 0,
+                           'rc_delete': 0, 'trait_delete': 0}}
+
 
 def run(chk):
     if not getattr(chk, 'no_lean', False):
         chk.lean_stage(META['lean_module'], exe=True)
     n = 500 if chk.tier == 'quick' else 10000
     hist.run_histories(chk, n, 50, PROFILE, ['C09'])
+    # beyond sequences: two in-flight provider requests (creation under a parent against a move or the deletion of that
+    # parent, two moves that would form a loop together), every interleaving at transaction granularity on the real
+    # application; the forest property is evaluated on the state each schedule ends in
+    conc.run_races(chk, ['C09'], 96 if chk.tier == 'quick' else 2000, 300, RACES)
     chk.cov['rule'] = ('random histories of 50 provider create/update/delete requests over a pool of 8 providers on both sides of '
-                       '1.14 and 1.37 (moves between trees, to top level, under own descendants); distinct = (operation, status) pairs')
+                       '1.14 and 1.37 (moves between trees, to top level, under own descendants); distinct = (operation, status) pairs; plus every interleaving of pairs of tree-changing requests')
